@@ -2,6 +2,7 @@ package admin
 
 import (
 	"bytes"
+	"context"
 	"crypto/subtle"
 	"encoding/base64"
 	"encoding/json"
@@ -228,7 +229,21 @@ func NewServer(store queue.Store) *Server {
 	return s
 }
 
+// configHeldKey marks a request whose configuration hold was already taken in ServeHTTP.
+type configHeldKey struct{}
+
+func isPublishPath(p string) bool {
+	return strings.HasSuffix(path.Clean(p), "/messages/publish")
+}
+
 func (s *Server) ServeHTTP(w http.ResponseWriter, r *http.Request) {
+	// A publish request is authorized, validated and stored under one
+	// configuration: take the hold before the token check, so that a reload
+	// cannot land between the authorization and the validation of the items.
+	if s.HoldConfig != nil && isPublishPath(r.URL.Path) {
+		defer s.HoldConfig()()
+		r = r.WithContext(context.WithValue(r.Context(), configHeldKey{}, true))
+	}
 	if s.Authorize != nil && !s.Authorize(r) {
 		writeManagementError(w, http.StatusUnauthorized, readCodeUnauthorized, "request is not authorized")
 		return
@@ -2114,7 +2129,7 @@ func (s *Server) handleMessagesPublish(w http.ResponseWriter, r *http.Request) {
 		return
 	}
 
-	if s.HoldConfig != nil {
+	if s.HoldConfig != nil && r.Context().Value(configHeldKey{}) == nil {
 		defer s.HoldConfig()()
 	}
 	managedRoutes, managedRoutesAvailable := s.managedRouteSet()
@@ -3328,7 +3343,7 @@ func (s *Server) handleApplicationEndpointPublish(w http.ResponseWriter, r *http
 		s.writePublishError(w, http.StatusServiceUnavailable, publishCodeStoreUnavailable, "queue store is unavailable", -1, true)
 		return
 	}
-	if s.HoldConfig != nil {
+	if s.HoldConfig != nil && r.Context().Value(configHeldKey{}) == nil {
 		defer s.HoldConfig()()
 	}
 	route, targets, status, code, detail, ok := s.resolveManagedEndpointPublishScope(application, endpointName)
